@@ -50,6 +50,16 @@ def run(prog, tier):
     borrow(R, P, "LIB-PRE", prog, c15.check_ext_pre, floor=1)
     borrow(R, P, "LIB-PRE", prog, c15.check_sample_seq, floor=5)
     borrow(R, P, "LIB-PRE", prog, c14.check_return_defined, floor=1)
+    # a malformed graph / formula file ends in the readers' own ValueError (shielded above), never in an IndexError / TypeError of theirs
+    from . import c06
+    borrow(R, P, "READER", prog, lambda r, p: c14.check_reader_total(r, p, eff), floor=1)
+    borrow(R, P, "READER", prog, lambda r, p: c06.check_reader_total(r, p, eff), floor=1)
+    borrow(R, P, "READER", prog, c14.check_kth_sibling, floor=1)
+    borrow(R, P, "READER", prog, c06.check_gates, floor=3)
+    # the text written is a complete formula with nothing but comments around it (the writers folded and read back, see C06 / C12)
+    borrow(R, P, "OUTPUT", prog, c06.check_writer, floor=1)
+    from . import c12
+    borrow(R, P, "OUTPUT", prog, c12.check_opb, floor=1)
     return R
 
 
